@@ -172,8 +172,11 @@ ReleaseJustifiedM ==
              /\ pl # 2 /\ k.pool = ""
              /\ (pl = 1 /\ k.kind = "sts") => (k.app \notin DOMAIN sts \/ sts[k.app] < IndexOf(k.pod) + 1)
              \* an immutable deployment IP is released only while the app holds more IPs than replicas (or has none left)
+             \* (measured against the replica count the releasing operation read: a scale-up between its reading and its release is a
+             \*  benign race of the environment, two releases that both saw the same surplus are not)
              /\ (pl = 1 /\ k.kind = "dp" /\ k.pool = "") =>
-                    (DpReplicas(k.app) = 0 \/ Cardinality({x \in DOMAIN mem : HasPrefix(mem[x].key, KeyPrefixOf(k))}) > DpReplicas(k.app))]_mcvars
+                    LET rep == IF Actor \in DOMAIN ops /\ ops[Actor].type \in {"unbind", "resync"} THEN ops[Actor].loc.replicas ELSE DpReplicas(k.app) IN
+                    (DpReplicas(k.app) = 0 \/ rep = 0 \/ Cardinality({x \in DOMAIN mem : HasPrefix(mem[x].key, KeyPrefixOf(k))}) > rep)]_mcvars
 \* C10
 CloudSingleNodeM == [][\A ip \in (DOMAIN cloud) \cap (DOMAIN cloud') : cloud'[ip] = cloud[ip]]_mcvars
 UnassignBeforeHandoverM == [][CloudOn => \A ip \in FreedM \cup RekeyedM : ip \notin DOMAIN cloud]_mcvars
